@@ -80,3 +80,14 @@ OBLIGATIONS.append(Obligation(
     bounds_q="input <= 4 bytes, payload <= 6 bytes, Checks with fields <= 8 bytes (None/CRC32/CRC64), 2 symbolic calls (RUN / SYNC_FLUSH / FINISH) + final FINISH call",
     bounds_t="input <= 5, payload <= 7, Check fields <= 32 bytes (adds SHA-256), 3 symbolic calls",
     outside="the filter chain itself; payloads beyond the bound (accounting is by counters); COMPRESSED_SIZE_MAX overflow branch (needs 2^63 bytes of output)"))
+BU = [S + "common/block_util.c", S + "check/check.c"]
+OBLIGATIONS += [
+    Obligation(name="block_unpadded_size_arith", src="blockutil.c", func="harness_unpadded_size", unwind=2, units=BU,
+        functions=["lzma_block_unpadded_size", "lzma_block_total_size", "lzma_check_size"],
+        desc="lzma_block_unpadded_size / lzma_block_total_size for ALL field values: 0 for invalid descriptions and sums beyond the largest Unpadded Size, UNKNOWN for unknown Compressed Size, otherwise header + Compressed Size + Check size (128-bit reference) resp. that rounded up to four",
+        bounds_q="all 32/64-bit field values"),
+    Obligation(name="block_compressed_size_arith", src="blockutil.c", func="harness_compressed_size", unwind=2, units=BU,
+        functions=["lzma_block_compressed_size", "lzma_block_unpadded_size", "lzma_check_size"],
+        desc="lzma_block_compressed_size for ALL field values and Unpadded Sizes: PROG_ERROR for invalid descriptions, DATA_ERROR when the Unpadded Size is not larger than header + Check or contradicts a known Compressed Size, otherwise Compressed Size = Unpadded Size - header - Check and lzma_block_unpadded_size maps it back",
+        bounds_q="all 32/64-bit field values"),
+]
